@@ -57,6 +57,8 @@ def resugar(e):
         if isinstance(v, (dict, list)):
             e[key] = resugar(v)
     k = e.get("k")
+    if k == "block":
+        counted_while_to_for(e)
     if k == "match" and e.get("src") == "ForLoopDesugar":
         # match into_iter(ITER) { mut iter => loop { match next(&mut iter) { None => break, Some(PAT) => BODY } } }
         try:
@@ -89,6 +91,28 @@ def resugar(e):
             b = e["b"]
             first = b["stmts"][0]
             iff = first["e"] if first["k"] in ("expr", "semi") else None
+            if iff and iff.get("k") == "if" and "e" not in iff and iff["c"].get("k") == "letx" and not any(x.get("k") in ("break", "continue") for x in walk(b)):
+                # loop { if let P = E { return V(P); } REST }   ==   while !matches!(E, P) { REST }  match E { P => return V(P), _ => unreachable }   (E is re-evaluated: it
+                # must be free of effects, which holds for the probe calls this idiom is used with; the locals REST assigns are the loop state)
+                t = iff["t"]
+                leave = None
+                if t.get("k") == "block" and len(t["stmts"]) == 1 and "e" not in t and t["stmts"][0]["k"] in ("expr", "semi") and t["stmts"][0]["e"].get("k") == "ret":
+                    leave = t["stmts"][0]["e"]
+                elif t.get("k") == "block" and not t["stmts"] and t.get("e", {}).get("k") == "ret":
+                    leave = t["e"]
+                probe = iff["c"]["init"]
+                pure = not any(x.get("k") in ("assign", "assignop", "closure") for x in walk(probe))
+                if leave is not None and pure:
+                    import copy
+                    tst = {"k": "match", "e": copy.deepcopy(probe), "ty": "bool", "ln": iff.get("ln"), "arms": [
+                        {"pat": copy.deepcopy(iff["c"]["pat"]), "body": {"k": "lit", "lk": "bool", "v": "true", "ty": "bool"}},
+                        {"pat": {"k": "wild"}, "body": {"k": "lit", "lk": "bool", "v": "false", "ty": "bool"}}]}
+                    rest = {"k": "block", "stmts": b["stmts"][1:], "ln": b.get("ln"), "ty": "()"}
+                    if "e" in b:
+                        rest["stmts"] = rest["stmts"] + [{"k": "semi", "e": b["e"]}]
+                    wh = {"k": "while", "c": {"k": "un", "op": "Not", "e": tst, "ty": "bool", "ln": iff.get("ln")}, "body": rest, "ln": e.get("ln"), "ty": "()"}
+                    fin = {"k": "if", "c": iff["c"], "t": {"k": "block", "stmts": [], "e": leave, "ty": "!"}, "e": {"k": "panic", "name": "unreachable", "ty": "!"}, "ln": iff.get("ln"), "ty": "!"}
+                    return {"k": "block", "stmts": [{"k": "semi", "e": wh}], "e": fin, "ln": e.get("ln"), "ty": e.get("ty")}
             if iff and iff.get("k") == "if" and "e" not in iff and iff["c"].get("k") != "letx" and not any(x.get("k") in ("break", "continue") for x in walk(b)):
                 t = iff["t"]
                 leave = None
@@ -122,6 +146,42 @@ def resugar(e):
             if pm in mac and k in ("call", "mcall", "block", "match"):
                 return {"k": "panic", "name": pm, "ln": e.get("ln"), "ty": e.get("ty")}
     return e
+
+
+def _refs_local(e, lid):
+    return any(x.get("k") == "path" and x.get("res") == "local" and x.get("id") == lid for x in walk(e))
+
+
+def counted_while_to_for(b):
+    """`let mut i = A; while i < N { BODY; i += 1; }` (i not otherwise assigned, no break/continue, i dead afterwards) is `for i in A..N { BODY }`."""
+    st = b["stmts"]
+    n = 0
+    while n + 1 < len(st):
+        a, w = st[n], st[n + 1]
+        ok = a["k"] == "let" and a["pat"].get("k") == "bind" and "sub" not in a["pat"] and "init" in a and w["k"] in ("expr", "semi") and w["e"].get("k") == "while"
+        if ok:
+            lid, wh = a["pat"]["id"], w["e"]
+            c = wh["c"]
+            cond_ok = c.get("k") == "bin" and c["op"] == "Lt" and c["l"].get("k") == "path" and c["l"].get("res") == "local" and c["l"].get("id") == lid \
+                and not _refs_local(c["r"], lid)
+            body = wh["body"]
+            bs = body["stmts"] if body.get("k") == "block" and "e" not in body else None
+            last = bs[-1]["e"] if bs and bs[-1]["k"] in ("expr", "semi") else None
+            inc_ok = bool(last) and last.get("k") == "assignop" and last["op"].startswith("Add") and last["l"].get("k") == "path" and last["l"].get("id") == lid \
+                and last["r"].get("k") == "lit" and str(last["r"].get("v")).split("_")[0] == "1"
+            if cond_ok and inc_ok:
+                rest_body = {"k": "block", "stmts": bs[:-1], "ln": body.get("ln"), "ty": "()"}
+                assigned = any(x.get("k") in ("assign", "assignop") and x["l"].get("k") == "path" and x["l"].get("id") == lid for x in walk(rest_body))
+                jumps = any(x.get("k") in ("break", "continue") for x in walk(rest_body))
+                live_after = any(_refs_local(s_.get("init") or s_.get("e") or {}, lid) for s_ in st[n + 2:]) or ("e" in b and _refs_local(b["e"], lid))
+                if not assigned and not jumps and not live_after:
+                    rng = {"k": "struct", "res": "def", "dk": "Struct", "def": "std::ops::Range", "fields": [["start", a["init"]], ["end", c["r"]]], "ln": wh.get("ln"),
+                           "ty": "std::ops::Range<usize>"}
+                    pat = dict(a["pat"])
+                    st[n:n + 2] = [{"k": "semi", "e": {"k": "for", "pat": pat, "iter": rng, "body": rest_body, "ln": wh.get("ln"), "ty": "()",
+                                                        "counted_while_inc_ln": last.get("ln")}}]
+                    continue
+        n += 1
 
 
 def fmt_pat(p):
